@@ -93,6 +93,10 @@ def run_property(prop, verdict, runs, require_actions=(), tlc_props=(), rule="",
         models.append(run_.coverage())
         samples.extend(run_.samples[:2])
         cmds.append(tlc.cmd)
+    if total["replayed"] and total["truncated"] > 0.10 * total["replayed"]:
+        # a replay is truncated when its history no longer reaches the recorded pre-state; on a healthy tree that is
+        # rare - a high rate means the harness lost track of the specification and is verifying nothing
+        raise core.MachineryError("vacuity: %d of %d replays truncated by an earlier divergence" % (total["truncated"], total["replayed"]))
     for need in require_actions:
         if not per_action.get(need):
             raise core.MachineryError("vacuity: action %s never explored (%s)" % (need, sorted(per_action)))
